@@ -439,3 +439,123 @@ pub fn cases() -> Vec<Case> {
     }
     out
 }
+
+
+// ---- operator-name census -------------------------------------------------------------------
+// walrus spells its UnaryOp / BinaryOp variants after the wasm operators they stand for. For every
+// unary / binary operator of the census: parse its one-operator module, read the variant walrus chose
+// (the variant name is a channel independent of the opcode tables), then build a function around that
+// variant through `unop` / `binop`, emit it and decode the opcode: the operator that comes out must be
+// the one the variant is named after. A parser and an emitter that agree with each other on a wrong
+// opcode <-> variant pairing pass every round trip, but not this.
+
+/// the operator name wasmparser uses for a walrus variant name
+pub fn wasm_name_of(variant: &str) -> String {
+    norm_variant(variant)
+}
+
+fn norm_variant(v: &str) -> String {
+    // lane operators carry their lane: `I8x16ExtractLaneS { idx: 0 }`
+    let v = v.split(' ').next().unwrap_or(v);
+    // the SIMD proposal renamed widen_* to extend_* after walrus named its variants
+    let s = v.replace("Widen", "Extend");
+    // scalar conversions were named before the sign moved to the end of the mnemonic:
+    // F32ConvertSI32 = f32.convert_i32_s, I32TruncSSatF32 = i32.trunc_sat_f32_s, I64ExtendUI32 = i64.extend_i32_u
+    for head in ["F32Convert", "F64Convert", "I32Trunc", "I64Trunc", "I64Extend"] {
+        if let Some(rest) = s.strip_prefix(head) {
+            for sign in ["S", "U"] {
+                if let Some(r2) = rest.strip_prefix(sign) {
+                    let (sat, src) = match r2.strip_prefix("Sat") {
+                        Some(x) => ("Sat", x),
+                        None => ("", r2),
+                    };
+                    if ["I32", "I64", "F32", "F64"].contains(&src) {
+                        return format!("{}{}{}{}", head, sat, src, sign);
+                    }
+                }
+            }
+        }
+    }
+    s
+}
+
+pub fn op_name_cases(census: &[Case]) -> Vec<Case> {
+    census
+        .iter()
+        .filter(|c| c.family == "opcensus")
+        .filter_map(|c| {
+            let m = crate::pipe::parse(&c.wasm, &crate::pipe::Cfg::default()).ok()?;
+            let (_, f) = m.funcs.iter_local().max_by_key(|(_, f)| f.block(f.entry_block()).instrs.len())?;
+            let has = f.block(f.entry_block()).instrs.iter().any(|(i, _)| matches!(i, walrus::ir::Instr::Unop(_) | walrus::ir::Instr::Binop(_)));
+            if !has {
+                return None;
+            }
+            let mut c2 = c.clone();
+            c2.family = "op-names".into();
+            c2.cfg = json!({"op_names": true, "wasm_op": c.coords.split(' ').next().unwrap_or("")});
+            Some(c2)
+        })
+        .collect()
+}
+
+pub fn check_op_name_case(c: &Case) -> Vec<Violation> {
+    let mut v = vec![];
+    let want = c.cfg["wasm_op"].as_str().unwrap_or("").to_string();
+    let m = match crate::pipe::parse(&c.wasm, &crate::pipe::Cfg::default()) {
+        Ok(m) => m,
+        Err(_) => return v,
+    };
+    let f = match m.funcs.iter_local().max_by_key(|(_, f)| f.block(f.entry_block()).instrs.len()) {
+        Some((_, f)) => f,
+        None => return v,
+    };
+    let found = f.block(f.entry_block()).instrs.iter().find_map(|(i, _)| match i {
+        walrus::ir::Instr::Unop(u) => Some((format!("{:?}", u.op), Some(u.op), None)),
+        walrus::ir::Instr::Binop(b) => Some((format!("{:?}", b.op), None, Some(b.op))),
+        _ => None,
+    });
+    let (variant, un, bin) = match found {
+        Some(x) => x,
+        None => return v,
+    };
+    if norm_variant(&variant) != want {
+        v.push(Violation::new("C15", format!("op-variant-misnamed:{}", want), format!("the operator {} is parsed into the variant {}, which stands for {}", want, variant, norm_variant(&variant)), c));
+    }
+    // through the builder
+    let built = catch_unwind(AssertUnwindSafe(|| {
+        let mut m = Module::default();
+        let mut b = FunctionBuilder::new(&mut m.types, &[], &[]);
+        {
+            let mut body = b.func_body();
+            body.unreachable();
+            if let Some(u) = un {
+                body.unop(u);
+            }
+            if let Some(bo) = bin {
+                body.binop(bo);
+            }
+        }
+        let fid = b.finish(vec![], &mut m.funcs);
+        m.exports.add("subject", fid);
+        m.emit_wasm()
+    }));
+    let wasm = match built {
+        Ok(w) => w,
+        Err(p) => {
+            v.push(Violation::new("C15", format!("builder-census-panic:{}", crate::pipe::norm_panic(&panic_msg(p))), format!("building / emitting {} panicked", variant), c));
+            return v;
+        }
+    };
+    let w = match wmodel::decode(&wasm) {
+        Ok(w) => w,
+        Err(e) => {
+            v.push(Violation::new("C15", "op-name-census-undecodable", format!("{}: {}", variant, e), c));
+            return v;
+        }
+    };
+    let ops: Vec<&str> = w.funcs.iter().filter_map(|f| f.body.as_ref()).flat_map(|b| b.ops.iter().map(|(o, _)| o.name)).filter(|n| *n != "Unreachable" && *n != "End").collect();
+    if ops != vec![want.as_str()] {
+        v.push(Violation::new("C15", format!("builder-emits-other-operator:{}", want), format!("a function built with the variant {} ({}) is emitted as {:?}", variant, want, ops), c));
+    }
+    v
+}
